@@ -56,7 +56,7 @@ def h_dt(defs, main, N, mode, style='sub'):
     return body
 
 
-def h_ct(defs, main, ns, mode):
+def h_ct(defs, main, ns, mode, overlap=False):
     defs_list = [(n, T(d)) for n, d in defs]
     main = T(main)
     dd = dict(defs_list)
@@ -70,6 +70,20 @@ def h_ct(defs, main, ns, mode):
         sigs = {v: ct.signal(env, v, n, 'zero') for v, n in zip(vs, ns)}
         mkargs = lambda vv: [[v, [list(p) for p in sigs[v]]] for v in vv]
         res = []
+        if overlap and mode == 'online':
+            # two batches, the second starting with a copy of the sample the first one ended with
+            b1 = [[v, [list(p) for p in sigs[v][:-1]]] for v in vs]
+            b2 = [[v, [list(p) for p in sigs[v][-2:]]] for v in vs]
+            sm.update(*b1)
+            sm.update(*b2)
+            for v in vs:
+                sg = [list(p) for p in sigs[v][-2:]]        # an independent copy of what was supplied (get_value may alias the batch)
+                got = sm.get_value(v)
+                res.append(('var-%s-len' % v, A.bool(len(got) == len(sg))))
+                if len(got) == len(sg):
+                    for i in range(len(sg)):
+                        res.append(('var-%s@%d' % (v, i), A.And(A.eq(got[i][0], sg[i][0]), A.eq(got[i][1], sg[i][1]))))
+            return res
         if mode == 'offline':
             sm.evaluate(*mkargs(vs))
         else:
@@ -147,5 +161,9 @@ def obligations(tier, rng):
             for mode in ('offline', 'online'):
                 out.append(ob('C12', 'ct', 'ct/%s/p=%s/out=%s' % (mode, text(d), text(m)), defs=[['p', d]], main=m,
                               ns=[2, 2] if two else [3 if quick else 4], mode=mode, max_paths=30000, wall=900))
+    for d, m in [(('abs', X), ('geq', P, ('const', 1.0))), (('geq', X, Y), ('not', P)), (('sub', X, Y), ('once', P))]:
+        two = len(variables(inline(m, {'p': d}))) > 1
+        out.append(ob('C12', 'ct', 'ct/online-overlap/p=%s/out=%s' % (text(d), text(m)), defs=[['p', d]], main=m, ns=[3, 3] if two else [3], mode='online',
+                      overlap=True, max_paths=30000, wall=900))
     seen = set()
     return [o for o in out if not (o['oid'] in seen or seen.add(o['oid']))]
